@@ -1,0 +1,66 @@
+//go:build verif
+
+package priq
+
+// Contracts for govc (contract-based deductive verification, see /verif/DESIGN.md).
+// Comments only; compiled only with the build tag `verif`.
+
+//@ arith int
+//@ property C12 C13
+//@ assumption priq: fewer than 2^63 pushes (the sequence counter does not overflow); an entry's priority does not change while it is queued
+//
+//@ opaque prio(e IEntry) int
+//@ func IEntry.GetPriority
+//@   trusted interface contract: the priority is a function of the entry
+//@   ensures result == prio(recv)
+//@   modifies
+// the specified order: higher priority first, first-in-first-out (smaller sequence number) among equal priorities
+//@ pure before(a *wrapEntry, b *wrapEntry) bool = prio(a.entry) > prio(b.entry) || (prio(a.entry) == prio(b.entry) && a.seq < b.seq)
+// an upper bound of the sequence numbers in a heap (opaque: only "every entry is at most it" is used)
+//@ opaque hmaxseq(s []*wrapEntry) int64
+//@ ghost signals int
+// the queue whose entries the heap functions operate on (extern/heap.spec)
+//@ ghost hq *PriQueue
+//
+//@ func EntryList.Len
+//@   ensures result == len(e)
+//@   modifies
+//@ func EntryList.Less
+//@   requires 0 <= i && i < len(e) && 0 <= j && j < len(e) && e[i] != nil && e[j] != nil
+//@   ensures #order result <==> before(e[i], e[j])
+//@   modifies
+//@ func EntryList.Swap
+//@   requires 0 <= i && i < len(e) && 0 <= j && j < len(e)
+//@   ensures e[i] == old(e[j]) && e[j] == old(e[i]) && forall k int :: { e[k] } 0 <= k && k < len(e) && k != i && k != j ==> e[k] == old(e[k])
+//@   modifies e[0:len(e)]
+//
+//@ func PriQueue.tyrSignal
+//@   trusted non-blocking send on the 1-buffered signal channel (channel sends are outside the modelled subset); the contract counts the attempt
+//@   ensures signals == old(signals) + 1
+//@   modifies signals
+//
+//@ guarded PriQueue.entries by PriQueue.mu
+//@ guarded PriQueue.curSeq by PriQueue.mu
+//@ monitor PriQueue.mu
+//@   havoc self.entries[0:cap(self.entries)], wrapEntry.seq, wrapEntry.entry, region($alloc)
+//@   invariant #entries forall k int :: { self.entries[k] } 0 <= k && k < len(self.entries) ==> self.entries[k] != nil && self.entries[k].seq <= self.curSeq
+//@   assume self.curSeq >= 0 && self.curSeq < 9223372036854775807 && (forall k int :: { self.entries[k] } 0 <= k && k < len(self.entries) ==> self.entries[k].seq <= hmaxseq(self.entries)) && hmaxseq(self.entries) <= self.curSeq
+//
+//@ func PriQueue.Len
+//@   requires pq != nil && !held(pq.mu)
+//@   ensures result == cs(len(pq.entries))
+//@   modifies PriQueue.entries, PriQueue.curSeq
+//@ func PriQueue.Push
+//@   requires pq != nil && !held(pq.mu) && ErrQueueIsFull != nil && hq == pq
+//@   ensures #full cs(len(pq.entries)) >= pq.capacity ==> result == ErrQueueIsFull && signals == old(signals)
+//@   ensures #accepted cs(len(pq.entries)) < pq.capacity ==> result == nil && signals == old(signals) + 1
+//@   atunlock #seq (len(pq.entries) == old(len(pq.entries)) && pq.curSeq == old(pq.curSeq)) || (len(pq.entries) == old(len(pq.entries)) + 1 && pq.curSeq == old(pq.curSeq) + 1)
+//@   modifies PriQueue.entries, PriQueue.curSeq, signals, region($alloc), region("E$*github.com/pinealctx/neptune/queue/priq.wrapEntry"), wrapEntry.seq, wrapEntry.entry
+//@ func PriQueue.Pop
+//@   requires pq != nil && !held(pq.mu) && hq == pq
+//@   ensures #empty cs(len(pq.entries)) == 0 ==> result == nil && signals == old(signals)
+//@   ensures #resignal cs(len(pq.entries)) > 1 ==> signals == old(signals) + 1
+//@   ensures #last cs(len(pq.entries)) == 1 ==> signals == old(signals)
+//@   atunlock #one len(pq.entries) == old(len(pq.entries)) || len(pq.entries) == old(len(pq.entries)) - 1
+//@   atunlock #highest len(pq.entries) < old(len(pq.entries)) ==> e != nil && forall k int :: { pq.entries[k] } 0 <= k && k < len(pq.entries) ==> !before(pq.entries[k], e)
+//@   modifies PriQueue.entries, PriQueue.curSeq, signals, region($alloc), region("E$*github.com/pinealctx/neptune/queue/priq.wrapEntry"), wrapEntry.seq, wrapEntry.entry
